@@ -90,51 +90,71 @@ pub fn explore<S: System>(sys: &S, lim: &Limits) -> (Stats, Vec<Violation>) {
             stats.capped = Some(format!("time cap {}s reached before depth {}", lim.max_seconds, depth));
             break;
         }
-        let results: Vec<(Vec<S::Ev>, Outcome<S::Ev>)> = tasks
-            .par_iter()
-            .map(|&(i, j)| {
-                let mut h = frontier[i].0.clone();
-                h.push(frontier[i].1[j].clone());
-                let o = sys.run(&h);
-                (h, o)
-            })
-            .collect();
-        stats.transitions += results.len() as u64;
+        // expand in chunks so that memory stays bounded and the caps are honoured inside a level
         let mut new_frontier = vec![];
         let mut new_states = 0u64;
-        for (h, o) in results {
-            if checked_determinism < 8 {
-                checked_determinism += 1;
-                let again = sys.run(&h);
-                if again.key != o.key {
-                    eprintln!("machinery error: the system is not deterministic for history {:?}", h);
-                    std::process::exit(2);
+        let mut level_complete = true;
+        for chunk in tasks.chunks(100_000) {
+            if start.elapsed().as_secs_f64() > lim.max_seconds {
+                stats.capped = Some(format!("time cap {}s reached inside depth {}", lim.max_seconds, depth));
+                level_complete = false;
+                break;
+            }
+            // (history, key hash, observable, violations, next, dead): the key text is dropped at once
+            let results: Vec<(Vec<S::Ev>, u128, String, Vec<Violation>, Vec<S::Ev>, bool)> = chunk
+                .par_iter()
+                .map(|&(i, j)| {
+                    let mut h = frontier[i].0.clone();
+                    h.push(frontier[i].1[j].clone());
+                    let o = sys.run(&h);
+                    (h, hash128(&o.key), o.observable, o.violations, o.next, o.dead)
+                })
+                .collect();
+            stats.transitions += results.len() as u64;
+            for (h, key, observable, violations, next, dead) in results {
+                if checked_determinism < 8 {
+                    checked_determinism += 1;
+                    let again = sys.run(&h);
+                    if hash128(&again.key) != key {
+                        eprintln!("machinery error: the system is not deterministic for history {:?}", h);
+                        std::process::exit(2);
+                    }
+                }
+                outcomes.insert(observable);
+                viols.extend(violations);
+                if viols.len() > 2000 {
+                    // keep one per signature
+                    let mut seen_sig = HashSet::new();
+                    viols.retain(|v| seen_sig.insert(v.signature.clone()));
+                }
+                if dead {
+                    stats.dead_ends += 1;
+                    continue;
+                }
+                if seen.insert(key) {
+                    new_states += 1;
+                    if stats.sample_histories.len() < 5 && (new_states % 97 == 1) {
+                        stats.sample_histories.push(format!("{:?}", h));
+                    }
+                    new_frontier.push((h, next));
                 }
             }
-            outcomes.insert(o.observable.clone());
-            viols.extend(o.violations);
-            if o.dead {
-                stats.dead_ends += 1;
-                continue;
-            }
-            if seen.insert(hash128(&o.key)) {
-                new_states += 1;
-                if stats.sample_histories.len() < 5 && (new_states % 97 == 1) {
-                    stats.sample_histories.push(format!("{:?}", h));
-                }
-                new_frontier.push((h, o.next));
+            if stats.states + new_states > lim.max_states {
+                stats.capped = Some(format!("state cap {} reached inside depth {}", lim.max_states, depth));
+                level_complete = false;
+                break;
             }
         }
         stats.states += new_states;
         stats.per_depth_new_states.push(new_states);
-        stats.depth_completed = depth;
-        frontier = new_frontier;
-        if stats.states > lim.max_states {
-            stats.capped = Some(format!("state cap {} reached after depth {}", lim.max_states, depth));
+        if !level_complete {
+            frontier = new_frontier;
             break;
         }
+        stats.depth_completed = depth;
+        frontier = new_frontier;
     }
-    if frontier.is_empty() {
+    if frontier.is_empty() && stats.capped.is_none() {
         stats.closed = true;
     }
     stats.outcomes = outcomes.len();
